@@ -34,7 +34,12 @@ def scan_sites(rep, prog):
         elif isinstance(cs.node.func, ast.Attribute) and cs.node.func.attr == "open" and cs.node.args and \
                 isinstance(cs.node.args[0], ast.Constant) and any(c in str(cs.node.args[0].value) for c in "wax+"):
             sites.append((cs, "open-write"))
-        if short in effects.DYNAMIC or short.startswith("subprocess."):
+        if short in ("setattr", "delattr"):
+            # rebinding an attribute of an imported module/object (setattr(os.path, 'join', os.remove)) is an escape hatch;
+            # storing a field of a local object / self is an ordinary attribute store
+            if cs.arg0_imported or not cs.arg0_plain:
+                dyn.append(cs)
+        elif short in effects.DYNAMIC or short.startswith("subprocess."):
             dyn.append(cs)
         if short == "getattr" and cs.node.args and isinstance(cs.node.args[0], ast.Name) and cs.node.args[0].id in ("os", "shutil", "pathlib"):
             dyn.append(cs)
@@ -96,10 +101,10 @@ def walk_elem_parts(fm, t):
     """os.path.join(root, file) with (root, _, files) = i-th os.walk tuple and file = j-th of files -> (walk elem, j loop) """
     if isinstance(t, Op) and t.op == "call:os.path.join" and len(t.args) == 2:
         a, b = t.args
-        if isinstance(a, Op) and a.op == "unpack" and a.args[1] == Const(0) and isinstance(a.args[0], Op) and a.args[0].op == "elem" \
+        if isinstance(a, Op) and a.op == "getitem" and a.args[1] == Const(0) and isinstance(a.args[0], Op) and a.args[0].op == "elem" \
                 and isinstance(a.args[0].args[0], Op) and a.args[0].args[0].op == "call:os.walk":
             w = a.args[0]
-            if isinstance(b, Op) and b.op == "elem" and b.args[0] == Op("unpack", w, Const(2)):
+            if isinstance(b, Op) and b.op == "elem" and b.args[0] == Op("getitem", w, Const(2)):
                 return w, b
     return None
 
@@ -170,7 +175,7 @@ def check_json_name(rep, prog, fm):
             ok_dir = any(x == fm.arg("output_dir") for x in dirs)
             parts = pelx.flat_parts(name)
             ok_name = len(parts) == 4 and isinstance(parts[0], Op) and parts[0].op == "call:os.path.basename" and \
-                parts[1] == Const(".") and parts[3] == Const(".json") and isinstance(parts[2], Op) and parts[2].op == "unpack" \
+                parts[1] == Const(".") and parts[3] == Const(".json") and isinstance(parts[2], Op) and parts[2].op == "getitem" \
                 and parts[2].args[1] == Const(0) and isinstance(parts[2].args[0], Op) and parts[2].args[0].op == "call:" + PT + "parsePEL"
             ok = ok_dir and ok_name
             detail = "dir ok=%s name ok=%s" % (ok_dir, ok_name)
